@@ -83,10 +83,12 @@ QUICK_COVER = ["cov_22", "cov_41", "cov_32", "cov_211", "cov_311"]
 THOROUGH_COVER = QUICK_COVER + ["cov_221", "cov_33"]
 
 
-def run_driver(exe, d, name, inp=None, random_n=0, seed=1, threads=3, objs=2, budget=5, timeout=900):
+def run_driver(exe, d, name, inp=None, random_n=0, seed=1, threads=3, objs=2, budget=5, timeout=900, epoch_offset=0):
     evf = os.path.join(d, name + ".ndjson")
     obsf = os.path.join(d, name + ".obs")
     cmd = [exe, "--events", evf, "--obs", obsf]
+    if epoch_offset:
+        cmd += ["--epoch-offset", str(epoch_offset)]
     if inp:
         cmd += ["--in", inp]
     else:
@@ -261,7 +263,8 @@ def run(prop, tier, seed):
         with open(inp, "w") as f:
             f.write("\n".join(chunks[ci]) + "\n")
         exe = exes[ci % 2] if tier == "thorough" or ci % 4 == 0 else exes[0]
-        evf, obsf = run_driver(exe, d, "replay_%d" % ci, inp=inp)
+        # a quarter of the chunks start from each value of the 2-bit epoch (wrap-around within the execution)
+        evf, obsf = run_driver(exe, d, "replay_%d" % ci, inp=inp, epoch_offset=ci % 4)
         n, rej, st = validate_events(evf, "replay of Qsbr behaviours", rep, prop, chunks[ci])
         return n, rej, st, lockstep_stats(obsf)
 
@@ -269,7 +272,7 @@ def run(prop, tier, seed):
         nt = 2 + i % 3
         exe = exes[i % 2]
         evf, obsf = run_driver(exe, d, "rand_%d" % i, random_n=(60 if tier == "quick" else 600), seed=seed * 100 + i,
-                               threads=nt, objs=2 + i % 2, budget=4 + i % 3)
+                               threads=nt, objs=2 + i % 2, budget=4 + i % 3, epoch_offset=(i // 2) % 4)
         n, rej, st = validate_events(evf, "random programs (%d threads, seed %d)" % (nt, seed * 100 + i), rep, prop)
         return n, rej, st, (0, 0)
 
